@@ -1,7 +1,7 @@
 """C04 — code, tags, URLs and other non-prose spans are reproduced verbatim.
 
 Leg A: TLC explores spec/Code.tla: every code block (fence character and length or indented, info string shape, content
-       lines over 11 kinds incl. blank lines, prefix look-alikes and fence look-alikes of either character) under 6 container
+       lines over 13 kinds incl. blank lines, prefix look-alikes and fence look-alikes of either character) under 6 container
        paths, rendered by the machine of _render_code / _min_fence_length; ContentVerbatim(K), BlankNoTrailing,
        FenceAdequate, FenceKept in every state; every behaviour is dumped.
 Leg B: each block is concretised inside its container path, formatted by the real reformat_text under typography options, the
@@ -20,9 +20,9 @@ from harness import project, tlc
 from harness.core import Check
 from harness.par import pmap
 
-KINDS = {"plain", "blank", "ind", "q", "b", "t3", "t4", "t5", "w3", "w4", "t3x"}
+KINDS = {"plain", "blank", "ind", "q", "b", "t3", "t4", "t5", "w3", "w4", "t3x", "s3", "sw3"}
 CONC = {"plain": 'x = "str"... # it\'s', "blank": "", "ind": "    indented", "q": "> not a quote", "b": "- not an item", "t3": "```",
-        "t4": "````", "t5": "`````", "w3": "~~~", "w4": "~~~~", "t3x": "```py"}
+        "t4": "````", "t5": "`````", "w3": "~~~", "w4": "~~~~", "t3x": "```py", "s3": "  ```", "sw3": " ~~~"}
 BACK = {v: k for k, v in CONC.items()}
 PATHS = {"top": ("", ""), "bullet": ("- ", "  "), "quote": ("> ", "> "), "bullet>quote": ("- > ", "  > "), "quote>bullet": ("> - ", ">   "),
          "footnote": ("[^1]: ", "    ")}
@@ -181,7 +181,7 @@ def _observe_inline(job):
 def run(tier: str) -> int:
     chk = Check("C04", tier, "model_checking")
     n = 2 if tier == "quick" else 3
-    chk.rule = (f"code blocks: every block of spec/Code.tla with <= {n} content lines over 11 kinds x fence ` / ~ x length 3/4 or indented x 3 info shapes x 6 "
+    chk.rule = (f"code blocks: every block of spec/Code.tla with <= {n} content lines over 13 kinds x fence ` / ~ x length 3/4 or indented x 3 info shapes x 6 "
                 f"container paths x 2 option sets; inline spans: {len(INLINE)} non-prose constructs at several positions of a wrapping paragraph x widths x "
                 "typography on/off x wrap mode x 3 containers; non-trivial = block with at least one special content line / inline case whose output differs from the input")
     chk.assumptions = ["literal spans are extracted by the same extractor (real marko parse + tag/comment regex) from input and output"]
@@ -193,7 +193,7 @@ def run(tier: str) -> int:
     beh = sorted((r for r in res.reports if r and r[0] == "K"), key=json.dumps)
     chk.notes["model_blocks"] = len(beh)
     if tier == "quick":
-        beh = [b for k, b in enumerate(beh) if (k + chk.seed) % 3 == 0 or any(x in ("t3", "t4", "t5", "w3", "w4") for x in b[1]["lines"])]
+        beh = [b for k, b in enumerate(beh) if (k + chk.seed) % 4 == 0 or any(x in ("t3", "t4", "t5", "w3", "w4", "s3", "sw3") for x in b[1]["lines"])]
     # indented code blocks are only placed at the top level (after an intro paragraph)
     beh = [b for b in beh if b[1]["fl"] > 0 or b[2] == "top"]
     jobs = [(i, b[1], b[2], i % 2) for i, b in enumerate(beh)]
